@@ -101,6 +101,27 @@ pub fn sleep_ns(ns: u64) {
     may::coroutine::sleep(std::time::Duration::from_nanos(ns));
 }
 
+/// wait for a condition set by another actor by polling with virtual sleeps (exponential
+/// back-off). gives up after `give_up_ns` of virtual time and returns false: a waiting actor
+/// that polled for ever would hide a hang from the deadlock detector (every expired sleep
+/// looks like progress) and burn the step budget. after giving up the actor simply goes on /
+/// ends, and whoever is really stuck is reported by the exact detector.
+pub fn poll_until(mut cond: impl FnMut() -> bool, give_up_ns: u64) -> bool {
+    let mut backoff = 300u64;
+    let mut waited = 0u64;
+    loop {
+        if cond() {
+            return true;
+        }
+        if waited >= give_up_ns {
+            return false;
+        }
+        sleep_ns(backoff);
+        waited += backoff;
+        backoff = (backoff * 2).min(200_000_000);
+    }
+}
+
 /// a cooperative pause that lets others run and time pass; cancellable in coroutines
 pub fn pause() {
     may::coroutine::yield_now();
